@@ -37,6 +37,8 @@ type ExecOpts struct {
 	Seed     int
 	Root     string
 	Tier     string
+	// SrcRoot is where mc/ and bin/ live (default: Root); Root is where replays and known findings are read/written.
+	SrcRoot string
 }
 
 type Evidence struct {
@@ -328,7 +330,11 @@ func ReplayFromFile(path string) (bool, string, error) {
 			return false, "", err
 		}
 		defer os.RemoveAll(tmp)
-		out, err := p.Custom(p, ExecOpts{Workers: 4, Deadline: time.Now().Add(10 * time.Minute), Root: tmp, Tier: rf.Tier})
+		src := os.Getenv("VERIF_ROOT")
+		if src == "" {
+			src = "/verif"
+		}
+		out, err := p.Custom(p, ExecOpts{Workers: 4, Deadline: time.Now().Add(10 * time.Minute), Root: tmp, SrcRoot: src, Tier: rf.Tier})
 		if err != nil {
 			return false, "", err
 		}
